@@ -299,11 +299,14 @@ async def _min_max(
     :param invert: compute ``max`` if ``True`` and ``min`` otherwise
     """
     async with ScopedIter(iterable) as item_iter:
-        best = await anext(item_iter, default=default)
-        # this implies that item_iter is empty and default is __MIN_MAX_DEFAULT
+        best = await anext(item_iter, default=__MIN_MAX_DEFAULT)  # type: ignore
+        # this implies that item_iter is empty
         if best is __MIN_MAX_DEFAULT:  # type: ignore
-            name = "max" if invert else "min"
-            raise ValueError(f"{name}() arg is an empty sequence")
+            if default is __MIN_MAX_DEFAULT:  # type: ignore
+                name = "max" if invert else "min"
+                raise ValueError(f"{name}() arg is an empty sequence")
+            # the default is returned as is and never passed to ``key``
+            return default
         elif key is None:
             async for item in item_iter:
                 if (best < item) if invert else (item < best):
